@@ -20,6 +20,8 @@
 
 package zapcore
 
+import "go.uber.org/zap/internal/verifhook"
+
 // Core is a minimal, fast logger interface. It's designed for library authors
 // to wrap in a more user-friendly API.
 type Core interface {
@@ -96,7 +98,9 @@ func (c *ioCore) Write(ent Entry, fields []Field) error {
 	if err != nil {
 		return err
 	}
+	verifhook.Point("iocore.write.encoded")
 	_, err = c.out.Write(buf.Bytes())
+	verifhook.Point("iocore.write.written")
 	buf.Free()
 	if err != nil {
 		return err
